@@ -27,6 +27,11 @@ func init() {
 
 func runC19(c *Ctx) {
 	p := c.P
+	// "or not at all": the upgrade's one database transaction rolls back on error and on panic and reports Commit's
+	// result (C11-R1 on the adapter's Update, taken over), and a failed version write is reported by every Manager's
+	// SetVersion (the storage error discipline of C10-R1 at those functions)
+	c.Borrow(runC11, "C11-R1", "C19-R3", func(k string) bool { return strings.HasPrefix(k, "Update-") || strings.HasPrefix(k, "helper-forwards:walletdb.Update") })
+	c.Borrow(runC10, "C10-R1", "C19-R2", func(k string) bool { return strings.Contains(k, "SetVersion") || strings.Contains(k, "putManagerVersion") || strings.Contains(k, "putVersion") })
 	up := c.P.Func("walletdb/migration", "", "upgrade")
 	vta := c.P.Func("walletdb/migration", "", "VersionsToApply")
 	glv := c.P.Func("walletdb/migration", "", "GetLatestVersion")
@@ -118,16 +123,55 @@ func runC19(c *Ctx) {
 				hits := exploreFromBlock(q, b.Succs[si], b)
 				c.Check("C19-R1", "newer-database-refused-untouched", lastPos(b), len(hits) == 0,
 					"when the stored version is newer than the latest known, upgrade can run a migration, set the version, or return something other than ErrReversion")
-			case "cur<latest":
-				nUp++
-				bad := false
-				q := &PathQuery{Fn: up, Barrier: isSetVersionMust, Target: p.nonErrorReturn()}
-				if len(exploreFromBlock(q, b.Succs[si], b)) > 0 {
-					bad = true
-				}
-				c.Check("C19-R1", "upgrade-records-version", lastPos(b), !bad, "the upgrade branch can return success without recording the new version")
 			}
 		}
+	}
+	// a success that did not record the version is possible only when the stored version is known not to be behind the
+	// latest: walked with the set of orderings (<, =, >) the comparisons passed so far leave open, so `switch` arms, a
+	// chain of early returns and a final "otherwise" all read the same
+	{
+		rel := map[string]uint8{"cur<latest": 1, "cur==latest": 2, "cur>latest": 4, "cur<=latest": 3, "cur>=latest": 6, "cur!=latest": 5}
+		succ := p.nonErrorReturn()
+		type key struct {
+			b  *ssa.BasicBlock
+			st uint8
+		}
+		seen := map[key]bool{}
+		var badAt ssa.Instruction
+		var walk func(b, via *ssa.BasicBlock, st uint8)
+		walk = func(b, via *ssa.BasicBlock, st uint8) {
+			if seen[key{b, st}] {
+				return
+			}
+			seen[key{b, st}] = true
+			for _, ins := range b.Instrs {
+				if isSetVersionMust(ins) {
+					return
+				}
+				if succ(ins, via) && st&1 != 0 && badAt == nil {
+					badAt = ins
+				}
+			}
+			for si, s := range b.Succs {
+				ns := st
+				if r, ok := rel[cmpEdge(b, si)]; ok {
+					ns = st & r
+					if ns == 0 {
+						continue
+					}
+					if ns == 1 && st != 1 {
+						nUp++
+					}
+				}
+				walk(s, b, ns)
+			}
+		}
+		walk(up.Blocks[0], nil, 7)
+		pos := up.Pos()
+		if badAt != nil {
+			pos = badAt.Pos()
+		}
+		c.Check("C19-R1", "upgrade-records-version", pos, badAt == nil, "the upgrade branch can return success without recording the new version")
 	}
 	// every success of upgrade has been through the stored-vs-latest comparison: a shortcut before it ("no versions
 	// declared: nothing to do") accepts a database that is newer than anything the software understands
